@@ -177,32 +177,87 @@ example : lookup "a" (modelInst ["a", "b", "a"] 2 ["b"] ["arguments", "c"]) = so
           lookup "b" (modelInst ["a", "b", "a"] 2 ["b"] ["arguments", "c"]) = some (.fn 0) ∧
           lookup "arguments" (modelInst ["a", "b", "a"] 2 ["b"] ["arguments", "c"]) = some .argumentsObj := by decide
 
-/-- C01.arguments_map_partial: the parameter map of the arguments object is the ES5 one whenever no
-    parameter name occurs twice -/
-theorem arguments_map_partial (params : List String) (nargs : Nat) (hnd : params.Nodup) :
+/-! ### the parameter map of the arguments object -/
+
+theorem clearName_append (p : String) (a b : List (Option String)) :
+    clearName p (a ++ b) = clearName p a ++ clearName p b := by
+  induction a with
+  | nil => rfl
+  | cons x a ih => cases x <;> simp [clearName, ih]
+
+theorem noLaterDup_snoc (q : List String) (p : String) :
+    noLaterDup (q ++ [p]) = clearName p (noLaterDup q) ++ [some p] := by
+  induction q with
+  | nil => simp [noLaterDup, clearName]
+  | cons x q ih =>
+    simp only [List.cons_append, noLaterDup, ih]
+    by_cases hq : x ∈ q
+    · simp [hq, clearName]
+    · by_cases hxp : x = p
+      · subst hxp; simp [hq, clearName]
+      · simp [hq, hxp, clearName]
+
+theorem mapGo_noLaterDup : ∀ (ps done : List String),
+    mapGo ps (noLaterDup done) = noLaterDup (done ++ ps) := by
+  intro ps
+  induction ps with
+  | nil => intro done; simp [mapGo]
+  | cons p ps ih =>
+    intro done
+    simp only [mapGo]
+    rw [← noLaterDup_snoc, ih]
+    simp
+
+theorem specMapped_cons (p : String) (q : List String) :
+    specMapped (p :: q) = specStep p (specMapped q) := rfl
+
+/-- the mappedNames list holds exactly the names seen so far -/
+theorem specMapped_names (q : List String) : ∀ x : String, x ∈ (specMapped q).2 ↔ x ∈ q := by
+  induction q with
+  | nil => intro x; simp [specMapped]
+  | cons p q ih =>
+    intro x
+    rw [specMapped_cons]
+    unfold specStep
+    by_cases h : p ∈ (specMapped q).2
+    · have hp : p ∈ q := (ih p).mp h
+      simp only [List.contains_eq_mem, h, decide_true, if_true]
+      rw [ih]
+      constructor
+      · intro hx; exact List.mem_cons_of_mem _ hx
+      · intro hx
+        rcases List.mem_cons.mp hx with hx | hx
+        · subst hx; exact hp
+        · exact hx
+    · simp only [List.contains_eq_mem, h, decide_false, if_false, Bool.false_eq_true]
+      simp only [List.mem_cons, ih]
+
+theorem specMapped_noLaterDup (q : List String) : (specMapped q).1 = noLaterDup q := by
+  induction q with
+  | nil => rfl
+  | cons p q ih =>
+    have hm := specMapped_names q p
+    rw [specMapped_cons]
+    unfold specStep
+    simp only [noLaterDup, List.contains_eq_mem]
+    by_cases h : p ∈ q
+    · simp [hm.mpr h, h, ih]
+    · have : ¬ p ∈ (specMapped q).2 := fun hh => h (hm.mp hh)
+      simp [this, h, ih]
+
+/-- C01.arguments_map: for EVERY parameter list (duplicates included) and every number of
+    arguments, the parameter map otto builds is the one ES5 §10.6 step 11 builds.
+    (Unconditional since fix c8023db; before it every position of a duplicated name was joined.) -/
+theorem arguments_map (params : List String) (nargs : Nat) :
     modelMap params nargs = specMap params nargs := by
   unfold modelMap specMap
-  apply List.map_congr_left
-  intro i _
-  cases hp : params[i]? with
-  | none => rfl
-  | some name =>
-    simp only
-    have hi : i < params.length := (List.getElem?_eq_some_iff.mp hp).1
-    have e1 : params[i] = name := (List.getElem?_eq_some_iff.mp hp).2
-    have hsplit : params = params.take i ++ (name :: params.drop (i+1)) := by
-      rw [← e1, ← List.drop_eq_getElem_cons hi, List.take_append_drop]
-    have hnot : name ∉ params.drop (i+1) := by
-      rw [hsplit] at hnd
-      have h2 := (List.nodup_append.mp hnd).2.1
-      exact (List.nodup_cons.mp h2).1
-    have : (params.drop (i+1)).contains name = false := by
-      apply Bool.eq_false_iff.mpr
-      intro hc
-      exact hnot (by simpa using hc)
-    simp [hnot]
+  rw [specMapped_noLaterDup]
+  have := mapGo_noLaterDup (params.take nargs) []
+  simp only [noLaterDup, List.nil_append] at this
+  rw [this]
 
-/-- the deviation: with a duplicated parameter name otto maps BOTH indices -/
-example : modelMap ["a", "a"] 2 ≠ specMap ["a", "a"] 2 := by decide
+/-- non-vacuity / the repaired case: duplicated names, fewer arguments than parameters, more arguments -/
+example : modelMap ["a", "a"] 2 = [none, some "a"] ∧ modelMap ["a", "a"] 1 = [some "a"] ∧
+          modelMap ["a", "b", "a"] 4 = [none, some "b", some "a", none] := by decide
 
 end OttoVerif.C01.CallThm
